@@ -24,6 +24,7 @@ type c20Case struct {
 	Name    string `json:"name"`
 	Kind    string `json:"kind"`    // concurrent | multi | snapshot | fallback | traces
 	G       int    `json:"g"`       // goroutines / generators
+	Min     int    `json:"min,omitempty"` // snapshot-live: lower bound of the sequence pool (G is the upper bound)
 	N       int    `json:"n"`       // draws (total or per generator)
 	Points  []int  `json:"points"`  // snapshot: draws before each snapshot/restore
 	Rounds  int    `json:"rounds"`  // fallback rounds
@@ -81,12 +82,14 @@ func c20Cases(tier string, seed uint64) []fw.Case {
 	}
 	// snapshots taken from a generator that is being drawn from at full speed (small sequence pools, so that it
 	// spends most of each time unit waiting out a sequence overflow), restored and drawn from at once
-	for _, pool := range []int{15, 255} {
-		c := c20Case{Kind: "snapshot-live", G: pool, Rounds: 60}
+	for _, pool := range [][2]int{{0, 15}, {0, 255}, {65280, 65535}, {65520, 65535}} {
+		// (the last two pools end at the top of the 16-bit sequence space: while they overflow the generator's
+		// internal counter is beyond what 16 bits hold)
+		c := c20Case{Kind: "snapshot-live", Min: pool[0], G: pool[1], Rounds: 60}
 		if tier == "thorough" {
 			c.Rounds = 600
 		}
-		c.Name = fmt.Sprintf("snapshot-live/pool%d", pool)
+		c.Name = fmt.Sprintf("snapshot-live/pool%d-%d", pool[0], pool[1])
 		cs = append(cs, fw.MkCase("snapshot-live", &c))
 	}
 	// one long-lived generator among tens of thousands of short-lived ones (more than the 65535 partitions a
@@ -390,7 +393,7 @@ func c20Run(c *c20Case, env *fw.Env, v *fw.V) {
 		v.Add("pairs", pairs)
 	case "snapshot-live":
 		tr := tracing.NewTracer(ctx)
-		cfg := []byte(fmt.Sprintf(`{"partition":[201,7],"sequenceMin":0,"sequenceMax":%d}`, c.G))
+		cfg := []byte(fmt.Sprintf(`{"partition":[201,7],"sequenceMin":%d,"sequenceMax":%d}`, c.Min, c.G))
 		first, err := id.GetSno().RestoreIdGenerator(ctx, cfg, tr)
 		if err != nil {
 			v.Violate("generator-error", "sno", "%v", err)
@@ -446,7 +449,7 @@ func c20Run(c *c20Case, env *fw.Env, v *fw.V) {
 			}
 			v.Add("ids", before+len(fresh))
 			if dup != "" {
-				v.Violate("duplicate-id", "snapshot-restore-live", "a generator restored from a snapshot taken while the original was being drawn from (pool of %d ids per time unit, %d ids issued before the snapshot) re-issued id %x", c.G+1, before, dup)
+				v.Violate("duplicate-id", "snapshot-restore-live", "a generator restored from a snapshot taken while the original was being drawn from (pool of %d ids per time unit, %d ids issued before the snapshot) re-issued id %x", c.G-c.Min+1, before, dup)
 				break
 			}
 			time.Sleep(time.Duration(200+r%7*300) * time.Microsecond)
